@@ -11,8 +11,8 @@ PROPS = {
         "rule": "rapid-generated workflow programs (deterministic profile: 1-7 steps, plugin+foreach, tags, 1-4 outputs, "
                 "all scripted outcome vectors, delays) run against the engine; oracle = reference result set. "
                 "non-trivial = >=2 declared outputs or >=1 failing step/deployment; distinct = FNV-64 of the case JSON",
-        "quick": {"cases": 1200, "shards": 12, "shrinktime": "30s"},
-        "thorough": {"cases": 20000, "shards": 16, "shrinktime": "120s", "timeout_s": 3000},
+        "quick": {"cases": 3600, "shards": 12, "shrinktime": "30s"},
+        "thorough": {"cases": 80000, "shards": 16, "shrinktime": "120s", "timeout_s": 3300},
         "assumptions": RUN_ASSUME,
     },
     "C01": {
@@ -21,8 +21,8 @@ PROPS = {
                 "crash / deploy failure / never-ending steps, foreach, tags) run under a 10 s watchdog; oracle = returns exactly one "
                 "declared output or an error, no hang (two goroutine dumps 1 s apart with identical blocked engine frames), promptness "
                 "when the reference says nothing is producible. non-trivial = >=2 steps and (a non-success outcome or fan-in >= 21)",
-        "quick": {"cases": 600, "shards": 12, "shrinktime": "40s"},
-        "thorough": {"cases": 8000, "shards": 16, "shrinktime": "180s", "timeout_s": 3000},
+        "quick": {"cases": 1200, "shards": 12, "shrinktime": "40s"},
+        "thorough": {"cases": 20000, "shards": 16, "shrinktime": "180s", "timeout_s": 3300},
         "assumptions": RUN_ASSUME + ["a watchdog expiry without blocked-goroutine evidence is counted as inconclusive, not as a violation"],
     },
     "C02": {
@@ -31,8 +31,8 @@ PROPS = {
                 "oracle over the plugin event log up to the run's shutdown: every logged plugin input and deploy tag equals the reference "
                 "evaluation of the step's expressions over what producers logged as emitted, and every required producer logged exec-end "
                 "before the consumer's exec-start. non-trivial = >=1 executed consumer with a step-output dependency",
-        "quick": {"cases": 1200, "shards": 12, "shrinktime": "30s"},
-        "thorough": {"cases": 20000, "shards": 16, "shrinktime": "120s", "timeout_s": 3000},
+        "quick": {"cases": 3600, "shards": 12, "shrinktime": "30s"},
+        "thorough": {"cases": 80000, "shards": 16, "shrinktime": "120s", "timeout_s": 3300},
         "assumptions": RUN_ASSUME + ["events after the run began shutting down (schedule point at the entry of terminateAllSteps) are not judged"],
     },
     "C04": {
@@ -41,8 +41,8 @@ PROPS = {
                 "in a third of the cases the stop-before-start motif (S waits for X and stops if Y; Z needs Y; X can finish only after Z started). "
                 "oracle: the set of plugin executions logged before shutdown is a subset of the reference's may-run set; in the motif S never "
                 "executes. non-trivial = >=1 step that must not run",
-        "quick": {"cases": 1200, "shards": 12, "shrinktime": "30s"},
-        "thorough": {"cases": 20000, "shards": 16, "shrinktime": "120s", "timeout_s": 3000},
+        "quick": {"cases": 3600, "shards": 12, "shrinktime": "30s"},
+        "thorough": {"cases": 80000, "shards": 16, "shrinktime": "120s", "timeout_s": 3300},
         "assumptions": RUN_ASSUME + ["events after the run began shutting down are not judged"],
     },
     "C07": {
@@ -52,8 +52,8 @@ PROPS = {
                 "misbehaving steps (crash, schema-violating output, undeclared output id, schema mismatch, write-refusing connection); each case runs "
                 "in a worker process; oracle = the worker neither dies nor reports a recovered panic and answers; a returned output must not be one "
                 "whose expression the reference evaluates to a fault. non-trivial = reference predicts >=1 fault or >=1 misbehaving step",
-        "quick": {"cases": 1200, "shards": 12, "shrinktime": "30s"},
-        "thorough": {"cases": 20000, "shards": 16, "shrinktime": "120s", "timeout_s": 3000},
+        "quick": {"cases": 3600, "shards": 12, "shrinktime": "30s"},
+        "thorough": {"cases": 80000, "shards": 16, "shrinktime": "120s", "timeout_s": 3300},
         "assumptions": RUN_ASSUME,
     },
     "C08": {
@@ -64,8 +64,8 @@ PROPS = {
                 "incl. failing foreach items; oracle = no returned error contains 'bug:', the returned data unserializes with OutputSchema()[id] "
                 "(checked by the harness in the worker, independently of the engine's own check) and equals the reference's expected shape. "
                 "non-trivial = the case references an engine-generated output or a foreach step",
-        "quick": {"cases": 1200, "shards": 12, "shrinktime": "30s"},
-        "thorough": {"cases": 20000, "shards": 16, "shrinktime": "120s", "timeout_s": 3000},
+        "quick": {"cases": 3600, "shards": 12, "shrinktime": "30s"},
+        "thorough": {"cases": 80000, "shards": 16, "shrinktime": "120s", "timeout_s": 3300},
         "assumptions": RUN_ASSUME,
     },
     "C18": {
@@ -77,7 +77,7 @@ PROPS = {
                 "X->string->X round trips, case/split definitions, ceil/floor/round/abs = math.*, bindConstants pairing). "
                 "non-trivial = the argument list contains a boundary-class value; distinct = FNV-64 of (law, function, arguments)",
         "quick": {"cases": 36000, "shards": 12, "shrinktime": "20s"},
-        "thorough": {"cases": 960000, "shards": 16, "shrinktime": "60s", "timeout_s": 3000},
+        "thorough": {"cases": 960000, "shards": 16, "shrinktime": "60s", "timeout_s": 3300},
         "assumptions": ["arguments that do not satisfy the declared parameter schema are outside the property's domain and are not counted",
                         "strings are valid UTF-8 (they reach the functions from YAML or CBOR text)"],
     },
@@ -89,8 +89,8 @@ PROPS = {
                 "cycles through input / wait_for / one-of option, renamed step / stage / output / field / input field, stage without outputs, unknown "
                 "function, wrong arity, missing required input, ill-typed literals, unknown fields / keys / plugin step, no outputs, bad version) "
                 "must each be rejected by Prepare. non-trivial = accepted program with a tag or > 60 edges; every corruption counts",
-        "quick": {"cases": 360, "shards": 12, "shrinktime": "30s"},
-        "thorough": {"cases": 6000, "shards": 16, "shrinktime": "120s", "timeout_s": 3000},
+        "quick": {"cases": 1200, "shards": 12, "shrinktime": "30s"},
+        "thorough": {"cases": 20000, "shards": 16, "shrinktime": "120s", "timeout_s": 3300},
         "assumptions": RUN_ASSUME + ["graph rules are those of DESIGN.md appendix C, confirmed against a dump of the engine's DAG"],
     },
     "C16": {
@@ -99,8 +99,8 @@ PROPS = {
                 "fields / map keys / one-of options, and under a consistent renaming of all steps; oracle = identical verdict and identical "
                 "canonical form (sorted nodes and typed edges, output schemas and namespaces rendered structurally with random inferred ids "
                 "removed, names mapped back). non-trivial = >=3 steps or a tag; each (program, transformation) pair counts",
-        "quick": {"cases": 300, "shards": 12, "shrinktime": "30s"},
-        "thorough": {"cases": 6000, "shards": 16, "shrinktime": "120s", "timeout_s": 3000},
+        "quick": {"cases": 900, "shards": 12, "shrinktime": "30s"},
+        "thorough": {"cases": 15000, "shards": 16, "shrinktime": "120s", "timeout_s": 3300},
         "assumptions": RUN_ASSUME,
     },
     "C11": {
@@ -113,8 +113,8 @@ PROPS = {
                 "the expected verdict; (e) corrupted / random input documents. oracle = Parse and Run return (value or error) within the watchdog, no "
                 "panic, no process death; file trees: accepted iff every referenced file exists and parses. non-trivial = the corrupted text differs "
                 "from its seed / is non-empty",
-        "quick": {"cases": 2400, "shards": 12, "shrinktime": "30s"},
-        "thorough": {"cases": 60000, "shards": 16, "shrinktime": "120s", "timeout_s": 3000},
+        "quick": {"cases": 6000, "shards": 12, "shrinktime": "30s"},
+        "thorough": {"cases": 200000, "shards": 16, "shrinktime": "120s", "timeout_s": 3300},
         "assumptions": ["the scripted deployer replaces engine.DefaultDeployerRegistry; container deployers are out of scope",
                         "native go fuzzing of the same entry point is run separately (fuzz/), see DESIGN.md"],
     },
@@ -126,8 +126,8 @@ PROPS = {
                 "nested wrong type / unknown field); programs whose 1-4 steps and output consume the fields. oracle: invalid => Execute errors and "
                 "the scripted deployer saw no run-phase activity at all; valid => every logged plugin input and the returned output equal the "
                 "harness's own normalisation of the document. non-trivial = invalid document, or schema with a default or nested object",
-        "quick": {"cases": 1800, "shards": 12, "shrinktime": "30s"},
-        "thorough": {"cases": 30000, "shards": 16, "shrinktime": "120s", "timeout_s": 3000},
+        "quick": {"cases": 3600, "shards": 12, "shrinktime": "30s"},
+        "thorough": {"cases": 80000, "shards": 16, "shrinktime": "120s", "timeout_s": 3300},
         "assumptions": RUN_ASSUME + ["bounded strings are ASCII (the schema library counts bytes)", "an object with a single property accepts that property's value in its place (schema library feature), such mutations are not used"],
     },
     "C05": {
@@ -139,8 +139,8 @@ PROPS = {
                 "schema probes during Prepare (deploy failure, write-refusing connection). oracle, read immediately when Execute / Prepare returns: "
                 "deployments == connection closes for that phase, no plugin execution in progress, and no goroutine with engine / pluginsdk / vplug "
                 "frames still alive after polling <= 2 s. non-trivial = a deployment or execution was live when the run decided to end",
-        "quick": {"cases": 900, "shards": 12, "shrinktime": "30s"},
-        "thorough": {"cases": 12000, "shards": 16, "shrinktime": "120s", "timeout_s": 3000},
+        "quick": {"cases": 1500, "shards": 12, "shrinktime": "30s"},
+        "thorough": {"cases": 25000, "shards": 16, "shrinktime": "120s", "timeout_s": 3300},
         "assumptions": RUN_ASSUME + ["goroutines are attributed by stack frames; a goroutine that needs more than 2 s to finish after return is reported as leaked"],
     },
     "C06": {
@@ -152,8 +152,8 @@ PROPS = {
                 "the cancellation; every execution that started has ended, never-ending ones only after a logged cancel signal / closed connection; "
                 "deploy/close balance and no leaked goroutine; a returned output's plugin-produced values equal what the producing steps logged as "
                 "emitted. non-trivial = >=1 deployment in flight when the cancellation fired",
-        "quick": {"cases": 600, "shards": 12, "shrinktime": "40s"},
-        "thorough": {"cases": 9000, "shards": 16, "shrinktime": "180s", "timeout_s": 3000},
+        "quick": {"cases": 900, "shards": 12, "shrinktime": "40s"},
+        "thorough": {"cases": 15000, "shards": 16, "shrinktime": "180s", "timeout_s": 3300},
         "assumptions": RUN_ASSUME + ["engine-generated stage outputs in a returned output are not judged: whether they exist depends on the instant a step was closed"],
     },
     "C13": {
@@ -166,8 +166,8 @@ PROPS = {
                 "forced); result equals the reference (success: list of per-item reference outputs in item order; failure: exactly the failing "
                 "indexes with a message each, and the others' results); cancelled loops: error, or a consistent partition of the items. "
                 "non-trivial = >=2 items, a failing item, or parallelism < n",
-        "quick": {"cases": 900, "shards": 12, "shrinktime": "30s"},
-        "thorough": {"cases": 12000, "shards": 16, "shrinktime": "120s", "timeout_s": 3000},
+        "quick": {"cases": 1800, "shards": 12, "shrinktime": "30s"},
+        "thorough": {"cases": 30000, "shards": 16, "shrinktime": "120s", "timeout_s": 3300},
         "assumptions": RUN_ASSUME,
     },
     "C15": {
@@ -180,8 +180,8 @@ PROPS = {
                 "option + discriminator, or-disabled = result or disabled message); a wait-optional consumer starts only after its source's "
                 "execution ended; in the motif the consumer starts before the source ends. non-trivial = a tag whose source did not succeed, "
                 "several tags in one object, or the motif",
-        "quick": {"cases": 1200, "shards": 12, "shrinktime": "30s"},
-        "thorough": {"cases": 20000, "shards": 16, "shrinktime": "120s", "timeout_s": 3000},
+        "quick": {"cases": 3600, "shards": 12, "shrinktime": "30s"},
+        "thorough": {"cases": 80000, "shards": 16, "shrinktime": "120s", "timeout_s": 3300},
         "assumptions": RUN_ASSUME + ["events after the run began shutting down are not judged"],
     },
     "C14": {
@@ -193,8 +193,8 @@ PROPS = {
                 "the reference predicts for an isolated first run with its input; its slice of the log satisfies C02's dataflow check (no foreign or "
                 "stale data); the DAG dumps of both prepared workflows are unchanged after all runs. non-trivial = two runs overlap in time or a "
                 "run follows a failed / cancelled one",
-        "quick": {"cases": 360, "shards": 12, "shrinktime": "40s"},
-        "thorough": {"cases": 6000, "shards": 16, "shrinktime": "180s", "timeout_s": 3000},
+        "quick": {"cases": 720, "shards": 12, "shrinktime": "40s"},
+        "thorough": {"cases": 12000, "shards": 16, "shrinktime": "180s", "timeout_s": 3300},
         "assumptions": RUN_ASSUME + ["cancelled runs are only required to return (their result is C06's subject)"],
     },
     "C09": {
@@ -209,7 +209,7 @@ PROPS = {
                 "particular never 'no steps running' when the result is producible). non-trivial = the planned site was hit in the run; distinct "
                 "= FNV-64 of (program, plan)",
         "quick": {"cases": 240, "shards": 16, "shrinktime": "30s", "timeout_s": 900},
-        "thorough": {"cases": 3200, "shards": 16, "shrinktime": "120s", "timeout_s": 3000},
+        "thorough": {"cases": 3200, "shards": 16, "shrinktime": "120s", "timeout_s": 3300},
         "assumptions": RUN_ASSUME + ["schedule points are source-level; preemption inside a statement or inside library code is not explored",
                                      "the three sites of open finding K6r are excluded from the sweep and counted"],
     },
@@ -226,8 +226,8 @@ PROPS = {
                 "Close/ForceClose return and are idempotent, no notification begins after the first Close returned, second provision refused, "
                 "invalid starting input refused, every ProvideStageInput returns within 1 s, deployments == closes, no goroutine left. "
                 "non-trivial = a concurrent round, or a close in a history where the plugin is also released",
-        "quick": {"cases": 480, "shards": 16, "shrinktime": "30s", "timeout_s": 1200},
-        "thorough": {"cases": 12000, "shards": 16, "shrinktime": "120s", "timeout_s": 3000},
+        "quick": {"cases": 960, "shards": 16, "shrinktime": "30s", "timeout_s": 1200},
+        "thorough": {"cases": 24000, "shards": 16, "shrinktime": "120s", "timeout_s": 3300},
         "assumptions": ["a stop condition is only provided to steps whose plugin step has a cancel-signal handler (the lifecycle schema disables stop_if otherwise and Prepare rejects such workflows)",
                         "a panic of the SDK's plugin-side ATP server (send on closed channel) is a harness artefact and discards the case"],
     },
@@ -256,8 +256,8 @@ PROPS = {
                 "cmd/arcaflow's runWorkflow (worker built from package main). oracle: all give the same output id / data / failure, equal to the "
                 "reference; outputIsError == declared flag (explicit schema) or id == \"error\" (inferred); exit code 0 / 2 / 3 as documented. "
                 "non-trivial = depth >= 2, an output named error, or an explicit schema",
-        "quick": {"cases": 240, "shards": 12, "shrinktime": "30s"},
-        "thorough": {"cases": 4000, "shards": 16, "shrinktime": "120s", "timeout_s": 3000},
+        "quick": {"cases": 480, "shards": 12, "shrinktime": "30s"},
+        "thorough": {"cases": 8000, "shards": 16, "shrinktime": "120s", "timeout_s": 3300},
         "assumptions": ["engine.DefaultDeployerRegistry is reassigned to the scripted deployer (the variable is exported for that purpose)",
                         "config loading from a file (config.Load) is not varied"],
     },
